@@ -28,6 +28,6 @@ def run(ctx):
     from rules import ecu as _E
     ctx.rule("R-WAKE-NONBLOCK", "posting a wake-up token never blocks: no burst of frames can stop the job thread on its own queue", floor=1)
     _E.wake_nonblocking(ctx)
-    ctx.rule("R-LOOP-PROGRESS", "every way round a while-loop of the stack changes something its exit tests read (no frame can make a thread spin)", floor=8)
+    ctx.rule("R-LOOP-PROGRESS", "every way round a while-loop of the stack changes something its exit tests read (no frame can make a thread spin)", floor=5)
     R.loop_progress(ctx, ("J1939_21", "J1939_22", "ElectronicControlUnit", "ControllerApplication"))
     return "liveness-shaped structural clauses of C07 decided on both data link layers and the bus listener"
